@@ -109,6 +109,8 @@ fn alpha_run(log: &mut Log, rng: &mut Rng, syms: &[u8]) {
     dedup.sort_unstable();
     dedup.dedup();
     if dedup.len() == 256 {
+        // (RankTransform::new is called on it below: ranks 0..=255 fill the u8)
+        log.oblige("alphabet_of_all_256_bytes");
         log.oblige("alpha_all_256");
     }
     let mut words: Vec<Vec<u8>> = vec![vec![]];
@@ -134,7 +136,15 @@ fn alpha_run(log: &mut Log, rng: &mut Rng, syms: &[u8]) {
     for w in &words {
         log.call("is_word", json!({"t": bytes(w)}), || json!({"v": alpha.is_word(w) as u8}));
     }
-    let rt = RankTransform::new(&alpha);
+    let mut rt: Option<RankTransform> = None;
+    log.call("rt_new", json!({}), || {
+        rt = Some(RankTransform::new(&alpha));
+        json!({})
+    });
+    let rt = match rt {
+        Some(r) => r,
+        None => return,
+    };
     log.call("ranks", json!({}), || {
         let v: Vec<u8> = syms.iter().map(|&a| rt.get(a)).collect();
         json!({ "v": v })
